@@ -31,9 +31,9 @@ theorem eval1_bernstein (P : Fin 1 → Fin 2 → ℝ) (T t : ℝ) :
   simp [cas_defs, cas_real, Fin.sum_univ_succ, Nat.choose]
   ring
 theorem eval1_start (P : Fin 1 → Fin 2 → ℝ) (T : ℝ) : bezier.eval1.p P T 0 = P 0 0 := by
-  simp [cas_defs, cas_real]
+  simp [cas_defs, cas_real] <;> (try ring1)
 theorem eval1_end (P : Fin 1 → Fin 2 → ℝ) (T : ℝ) (hT : T ≠ 0) : bezier.eval1.p P T T = P 0 1 := by
-  simp [cas_defs, cas_real, div_self hT]
+  simp [cas_defs, cas_real, div_self hT] <;> (try ring1)
 theorem eval1_deriv1 (P : Fin 1 → Fin 2 → ℝ) (T t : ℝ) :
     HasDerivAt (fun s => bezier.eval1.p P T s) (bezier.eval1.d P T t) t := by
   have hd : DifferentiableAt ℝ (fun s => bezier.eval1.p P T s) t := by
@@ -48,9 +48,9 @@ theorem eval2_bernstein (P : Fin 1 → Fin 3 → ℝ) (T t : ℝ) :
   simp [cas_defs, cas_real, Fin.sum_univ_succ, Nat.choose]
   ring
 theorem eval2_start (P : Fin 1 → Fin 3 → ℝ) (T : ℝ) : bezier.eval2.p P T 0 = P 0 0 := by
-  simp [cas_defs, cas_real]
+  simp [cas_defs, cas_real] <;> (try ring1)
 theorem eval2_end (P : Fin 1 → Fin 3 → ℝ) (T : ℝ) (hT : T ≠ 0) : bezier.eval2.p P T T = P 0 2 := by
-  simp [cas_defs, cas_real, div_self hT]
+  simp [cas_defs, cas_real, div_self hT] <;> (try ring1)
 theorem eval2_deriv1 (P : Fin 1 → Fin 3 → ℝ) (T t : ℝ) :
     HasDerivAt (fun s => bezier.eval2.p P T s) (bezier.eval2.d_0 P T t) t := by
   have hd : DifferentiableAt ℝ (fun s => bezier.eval2.p P T s) t := by
@@ -71,9 +71,9 @@ theorem eval3_bernstein (P : Fin 1 → Fin 4 → ℝ) (T t : ℝ) :
   simp [cas_defs, cas_real, Fin.sum_univ_succ, Nat.choose]
   ring
 theorem eval3_start (P : Fin 1 → Fin 4 → ℝ) (T : ℝ) : bezier.eval3.p P T 0 = P 0 0 := by
-  simp [cas_defs, cas_real]
+  simp [cas_defs, cas_real] <;> (try ring1)
 theorem eval3_end (P : Fin 1 → Fin 4 → ℝ) (T : ℝ) (hT : T ≠ 0) : bezier.eval3.p P T T = P 0 3 := by
-  simp [cas_defs, cas_real, div_self hT]
+  simp [cas_defs, cas_real, div_self hT] <;> (try ring1)
 theorem eval3_deriv1 (P : Fin 1 → Fin 4 → ℝ) (T t : ℝ) :
     HasDerivAt (fun s => bezier.eval3.p P T s) (bezier.eval3.d_0 P T t) t := by
   have hd : DifferentiableAt ℝ (fun s => bezier.eval3.p P T s) t := by
@@ -100,9 +100,9 @@ theorem eval4_bernstein (P : Fin 1 → Fin 5 → ℝ) (T t : ℝ) :
   simp [cas_defs, cas_real, Fin.sum_univ_succ, Nat.choose]
   ring
 theorem eval4_start (P : Fin 1 → Fin 5 → ℝ) (T : ℝ) : bezier.eval4.p P T 0 = P 0 0 := by
-  simp [cas_defs, cas_real]
+  simp [cas_defs, cas_real] <;> (try ring1)
 theorem eval4_end (P : Fin 1 → Fin 5 → ℝ) (T : ℝ) (hT : T ≠ 0) : bezier.eval4.p P T T = P 0 4 := by
-  simp [cas_defs, cas_real, div_self hT]
+  simp [cas_defs, cas_real, div_self hT] <;> (try ring1)
 theorem eval4_deriv1 (P : Fin 1 → Fin 5 → ℝ) (T t : ℝ) :
     HasDerivAt (fun s => bezier.eval4.p P T s) (bezier.eval4.d_0 P T t) t := by
   have hd : DifferentiableAt ℝ (fun s => bezier.eval4.p P T s) t := by
@@ -135,9 +135,9 @@ theorem eval5_bernstein (P : Fin 1 → Fin 6 → ℝ) (T t : ℝ) :
   simp [cas_defs, cas_real, Fin.sum_univ_succ, Nat.choose]
   ring
 theorem eval5_start (P : Fin 1 → Fin 6 → ℝ) (T : ℝ) : bezier.eval5.p P T 0 = P 0 0 := by
-  simp [cas_defs, cas_real]
+  simp [cas_defs, cas_real] <;> (try ring1)
 theorem eval5_end (P : Fin 1 → Fin 6 → ℝ) (T : ℝ) (hT : T ≠ 0) : bezier.eval5.p P T T = P 0 5 := by
-  simp [cas_defs, cas_real, div_self hT]
+  simp [cas_defs, cas_real, div_self hT] <;> (try ring1)
 theorem eval5_deriv1 (P : Fin 1 → Fin 6 → ℝ) (T t : ℝ) :
     HasDerivAt (fun s => bezier.eval5.p P T s) (bezier.eval5.d_0 P T t) t := by
   have hd : DifferentiableAt ℝ (fun s => bezier.eval5.p P T s) t := by
@@ -176,9 +176,9 @@ theorem eval6_bernstein (P : Fin 1 → Fin 7 → ℝ) (T t : ℝ) :
   simp [cas_defs, cas_real, Fin.sum_univ_succ, Nat.choose]
   ring
 theorem eval6_start (P : Fin 1 → Fin 7 → ℝ) (T : ℝ) : bezier.eval6.p P T 0 = P 0 0 := by
-  simp [cas_defs, cas_real]
+  simp [cas_defs, cas_real] <;> (try ring1)
 theorem eval6_end (P : Fin 1 → Fin 7 → ℝ) (T : ℝ) (hT : T ≠ 0) : bezier.eval6.p P T T = P 0 6 := by
-  simp [cas_defs, cas_real, div_self hT]
+  simp [cas_defs, cas_real, div_self hT] <;> (try ring1)
 theorem eval6_deriv1 (P : Fin 1 → Fin 7 → ℝ) (T t : ℝ) :
     HasDerivAt (fun s => bezier.eval6.p P T s) (bezier.eval6.d_0 P T t) t := by
   have hd : DifferentiableAt ℝ (fun s => bezier.eval6.p P T s) t := by
@@ -223,9 +223,9 @@ theorem eval7_bernstein (P : Fin 1 → Fin 8 → ℝ) (T t : ℝ) :
   simp [cas_defs, cas_real, Fin.sum_univ_succ, Nat.choose]
   ring
 theorem eval7_start (P : Fin 1 → Fin 8 → ℝ) (T : ℝ) : bezier.eval7.p P T 0 = P 0 0 := by
-  simp [cas_defs, cas_real]
+  simp [cas_defs, cas_real] <;> (try ring1)
 theorem eval7_end (P : Fin 1 → Fin 8 → ℝ) (T : ℝ) (hT : T ≠ 0) : bezier.eval7.p P T T = P 0 7 := by
-  simp [cas_defs, cas_real, div_self hT]
+  simp [cas_defs, cas_real, div_self hT] <;> (try ring1)
 theorem eval7_deriv1 (P : Fin 1 → Fin 8 → ℝ) (T t : ℝ) :
     HasDerivAt (fun s => bezier.eval7.p P T s) (bezier.eval7.d_0 P T t) t := by
   have hd : DifferentiableAt ℝ (fun s => bezier.eval7.p P T s) t := by
